@@ -45,6 +45,10 @@ pub static mut FAULTS: bool = false;
 pub static mut RX: Gate = GATE0; // registration channel
 pub static mut SM: Gate = GATE0; // publisher / requestor streams (StreamMap)
 pub static mut RX_TERMINATED: bool = false;
+/// C09: how often one scheduling step (one `poll` of a router) may poll its StreamMap.
+/// Both routers poll it exactly once per loop iteration, so exceeding the limit means the
+/// loop is spinning; the harness resets `SM.polls` before every poll it makes.
+pub static mut SM_STEP_LIMIT: usize = usize::MAX;
 
 #[cfg(kani)]
 pub fn any_bool() -> bool {
